@@ -3,6 +3,7 @@ package scen
 import (
 	"bytes"
 	"fmt"
+	cmtcrypto "github.com/cometbft/cometbft/proto/tendermint/crypto"
 	"math/big"
 	"sort"
 	"strings"
@@ -80,6 +81,7 @@ type c15World struct {
 	lastTS         int64
 	updatesOK      int
 	pendingMembers []*l1Val
+	pendingHostile bool // the pending refresh carries a validator whose key cannot be converted
 }
 
 func newC15(r *core.Run, prop string, replicas bool) *c15World {
@@ -162,6 +164,13 @@ func (c *c15World) genRefresh() (node.HostSetUpdate, string) {
 		tag = "empty-client"
 	}
 	c.pendingMembers = members
+	c.pendingHostile = false
+	if tag == "higher" && r.Chance(1, 10) {
+		// one validator of the L1 set uses a key type the L2 cannot convert: no partial set may be recorded
+		vs.Validators[r.Intn(len(vs.Validators))].PubKey = cmtcrypto.PublicKey{}
+		c.pendingHostile = true
+		tag = "higher,unconvertible-key"
+	}
 	return node.HostSetUpdate{ClientID: client, Height: h, Set: vs}, fmt.Sprintf("refresh %s client=%q height=%d validators=%d", tag, client, h, n)
 }
 
@@ -478,7 +487,25 @@ func runC15As(r *core.Run, prop string, replicas bool) *core.Violation {
 		switch r.Weighted([]int{3, 10, 2}) {
 		case 0:
 			up, desc := c.genRefresh()
-			switch r.Weighted([]int{4, 3, 3}) {
+			path := r.Weighted([]int{4, 3, 3})
+			if c.pendingHostile {
+				// only inside a transaction: the update is refused there and the transaction fails as a whole
+				r.Step("host.refresh", "%s (inside a tx that must fail)", desc)
+				from := w.pickUser()
+				carrier := &banktypes.MsgSend{FromAddress: from, ToAddress: from, Amount: sdk.NewCoins(sdk.NewCoin("umin", math.NewInt(1)))}
+				must := ""
+				if cfg := w.m.Bridge; cfg != nil && up.ClientID != "" && up.ClientID == cfg.L1ClientId && up.Height > c.setH {
+					must = "a light-client update with an unconvertible validator key" // (an update that is ignored anyway - other client, old height - is not looked at)
+				}
+				if v := c.blockMust(carrier, "send", "client update carrier", node.HostMemo(up), must); v != nil {
+					return v
+				}
+				if v := c.checkHostSet(); v != nil {
+					return v
+				}
+				continue
+			}
+			switch path {
 			case 0:
 				// block-level input (the update reaches opchild outside any transaction)
 				r.Step("host.refresh", "%s (block-level)", desc)
@@ -536,6 +563,10 @@ func (c *c15World) block(msg sdk.Msg, kind, desc string) *core.Violation {
 }
 
 func (c *c15World) blockMemo(msg sdk.Msg, kind, desc, memo string) *core.Violation {
+	return c.blockMust(msg, kind, desc, memo, "")
+}
+
+func (c *c15World) blockMust(msg sdk.Msg, kind, desc, memo, mustFail string) *core.Violation {
 	w := c.w
 	T := w.now.Add(time.Duration(1+c.r.Intn(5)) * time.Second)
 	bc := blockCtx{Height: w.n.Height() + 1, Time: T}
@@ -555,7 +586,7 @@ func (c *c15World) blockMemo(msg sdk.Msg, kind, desc, memo string) *core.Violati
 		if err != nil {
 			panic(err)
 		}
-		txs = append(txs, l2Pending{Msgs: []sdk.Msg{msg}, Bytes: bz, Kind: kind, Desc: desc})
+		txs = append(txs, l2Pending{Msgs: []sdk.Msg{msg}, Bytes: bz, Kind: kind, Desc: desc, MustFail: mustFail})
 	}
 	crash := ""
 	if c.r.Chance(1, 10) {
